@@ -660,6 +660,63 @@ func genC06(g *gen) {
 		s2, _ := x2.Sign([]byte("d"))
 		g.check(x1.GetPK() == x2.GetPK() && bytes.Equal(s1, s2), "deterministic", "two keys from the same (seed, height, hash) differ in PK or signature")
 	}
+	// many keys and signatures against the independent full-tree reference in Go (ref_xmss.go): every index of small
+	// trees, message digests of every shape (WOTS digits and checksums are data dependent), sequential signing and
+	// jumps, a byte boundary of the index at h = 10
+	g.note("keys and signatures vs an independent full-tree reference, many seeds and messages")
+	{
+		type job struct {
+			h, hf int
+			seed  []byte
+		}
+		var jobs []job
+		nk := 64
+		if g.thorough {
+			nk = 480
+		}
+		for i := 0; i < nk; i++ {
+			h := []int{4, 4, 4, 6, 4, 4, 4, 8}[i%8]
+			jobs = append(jobs, job{h, i % 3, g.bytes(48)})
+		}
+		jobs = append(jobs, job{10, g.rng.Intn(3), g.bytes(48)})
+		var mu sync.Mutex
+		parallel(len(jobs), func(k int) {
+			j := jobs[k]
+			ref := rxNewKey(j.seed, j.h, j.hf)
+			x := newKey(j.seed, j.h, j.hf)
+			pk := x.GetPK()
+			okPK := bytes.Equal(pk[:], ref.pk)
+			mu.Lock()
+			g.check(okPK, "pk-vs-reference", fmt.Sprintf("h=%d %s: the public key differs from the full-tree reference for seed %s", j.h, hfName[j.hf], hx(j.seed)), fmt.Sprintf("xs.pk %s %d %d", hx(j.seed), j.h, j.hf))
+			mu.Unlock()
+			n := 1 << uint(j.h)
+			rng := newRng(int64(k)*977 + g.seed)
+			idx := 0
+			if j.h == 10 {
+				idx = 250
+				x.SetIndex(250)
+			}
+			for cnt := 0; idx < n && cnt < 96; cnt++ {
+				msg := make([]byte, rng.Intn(40))
+				rng.Read(msg)
+				sig, err := x.Sign(msg)
+				want := ref.sign(uint32(idx), msg)
+				ok := err == nil && bytes.Equal(sig, want)
+				mu.Lock()
+				g.check(ok, "sign-vs-reference", fmt.Sprintf("h=%d %s index %d: the signature differs from the full-tree reference (seed %s, msg %s)", j.h, hfName[j.hf], idx, hx(j.seed), hx(msg)),
+					fmt.Sprintf("xs.sign %s %d %d %d %s", hx(j.seed), j.h, j.hf, idx, hx(msg)))
+				mu.Unlock()
+				idx++
+				if j.h >= 6 && rng.Intn(4) == 0 && idx < n-1 { // forward jump
+					idx += rng.Intn((n - idx) / 2 + 1)
+					if idx >= n {
+						break
+					}
+					x.SetIndex(uint32(idx))
+				}
+			}
+		})
+	}
 	g.concurrentDeterminism()
 }
 
